@@ -10,6 +10,8 @@ type ProcCmd struct {
 	TracePath string    `json:"trace_path,omitempty"`
 	LogPath   string    `json:"log_path,omitempty"`
 	RecordHot bool      `json:"record_hot,omitempty"`
+	// History: generate long sequential history runs instead of concurrent ones.
+	History bool `json:"history,omitempty"`
 }
 
 // CallResult is the observed result of one call.
@@ -21,6 +23,8 @@ type CallResult struct {
 	Result       string `json:"result"`
 	MapViolation string `json:"map_violation,omitempty"`
 	Yields       uint64 `json:"yields"`
+	// Again re-renders the raw returned values (not serialised).
+	Again func() string `json:"-"`
 }
 
 // Violation is an oracle violation found inside a simulation process.
